@@ -47,7 +47,13 @@ const VOCAB: &[&str] = &[
     "7 // 0", "3 % 0", "1 / 0", "0 ** -1", "9223372036854775807 + 1", "-9223372036854775808", "1e308 * 10", "0x7fffffffffffffff",
     "1e999", "0.0 / 0", "take 0", "take -1", "take 1..0", "take 9223372036854775807", "rows:5..1", "rolling:0", "rolling:-1",
     "loop", "remove", "intersect", "from_text", "read_csv", "internal", "prql", "type", "import", "enum", "@{a=1}", "\n",
+    // s-strings in relation and expression position, raw strings, strings with multi-byte text
+    "from s\"SELECT * FROM t1\"", "s\"SELECT id, a FROM t1 WHERE a > 1\"", "s\"select 1 as id\"", "s\"SELECT\"", "s\"SEL\"", "s\"\"",
+    "(s\"SELECT * FROM {t1}\")", "s\"COALESCE({a}, 0)\"", "r\"a\\b\"", "\"é漢😀\"", "f\"é{a}漢\"", "'''a'''", "\"\\u{1F600}\"", "\"\\x41\"",
 ];
+
+/// characters that look like a space or a letter but take more than one byte
+const WIDE: &[&str] = &["\u{a0}", "\u{3000}", "\u{2028}", "é", "漢", "😀", "e\u{301}", "\u{feff}"];
 
 fn base_source(t: &mut Tape) -> String {
     let mut cfg = GenCfg::general();
@@ -83,7 +89,35 @@ pub fn gen_source_case(t: &mut Tape) -> Case {
             break;
         }
         let i = t.choose(pieces.len());
-        match t.choose(6) {
+        match t.choose(8) {
+            6 => {
+                // text pasted from a document: spaces of one piece become a multi-byte look-alike
+                let strs: Vec<usize> = (0..pieces.len()).filter(|k| pieces[*k].contains(' ')).collect();
+                if !strs.is_empty() {
+                    let k = strs[t.choose(strs.len())];
+                    let w = *t.pick(WIDE);
+                    pieces[k] = if t.chance(1, 2) { pieces[k].replace(' ', w) } else { pieces[k].replacen(' ', w, 1) };
+                } else {
+                    pieces[i] = t.pick(VOCAB).to_string();
+                }
+            }
+            7 => {
+                // a multi-byte character spliced into a piece at a character boundary
+                let w = *t.pick(WIDE);
+                let n = pieces[i].chars().count();
+                let at = t.choose(n + 1);
+                let mut o = String::new();
+                for (k, c) in pieces[i].chars().enumerate() {
+                    if k == at {
+                        o.push_str(w);
+                    }
+                    o.push(c);
+                }
+                if at >= n {
+                    o.push_str(w);
+                }
+                pieces[i] = o;
+            }
             0 => {
                 pieces.remove(i);
             }
